@@ -5,9 +5,10 @@
    line per stream with the expected events for the replay harness. *)
 EXTENDS TeehistCore, Json
 
-CONSTANTS MaxLen, Alpha, Export
+CONSTANTS MaxLen, Alpha, Export, Sweep
 
-VARIABLES items, r      \* r = Read(S), kept in the state so that it is computed once
+VARIABLES items, r,     \* r = Read(S), kept in the state so that it is computed once
+          sweep         \* TRUE: a stream of the boundary-sweep family (not extended further)
 Str(its) == [ver |-> 2, items |-> its, cut |-> 0, cl |-> 0]
 S == Str(items)
 
@@ -32,13 +33,52 @@ AlphaA6 ==
   {Pn(c) : c \in 0..2} \cup {Pd(c) : c \in 0..2} \cup {Po(c) : c \in 0..2}
   \cup {Ts(0), Ts(1), O("join", 0, 0, 0), Fin}
 
+\* ---------------------------------------------------------------- boundary sweep
+\* Every integer field of every record kind takes every boundary value the field allows
+\* (one field at a time, the others benign), at the start of a stream, and with the tick at
+\* 2^31 - 1 and 2^31 - 2 (where a further tick must end in TickOverflow, never in a wrapped
+\* tick); PLAYER_DIFF / PLAYER_OLD / INPUT_DIFF are preceded by the NEW they refer to; each
+\* swept record is followed by JOIN, FINISH so that reading on after it is observed.
+Bnd == {0, 1, -1, 63, 64, MaxInt - 1, MaxInt, MinInt}
+\* ids that make the reader allocate (PLAYER_NEW, INPUT_NEW) are capped at 4095 (assumption)
+BndAlloc == {0, 1, -1, 63, 64, 4095, MinInt}
+BndNat == {0, 1, 63, 64, MaxInt - 1, MaxInt}       \* PLAYER_DIFF: the message id is the cid
+BndLen == {0, 1, 63, 64}                           \* lengths of strings / data
+\* fields a record kind does not have are 0 (that is what the projection of a returned record gives)
+ON(s, c, a, b) == LET ch == Chars(Shape(s)) IN
+  O(s, IF "c" \in ch THEN c ELSE 0, IF ch \cap {"s", "d", "r"} # {} THEN a ELSE 0,
+    IF ch \cap {"b", "n"} # {} THEN b ELSE 0)
+SubsB == {s \in SubKinds : "b" \in Chars(Shape(s))}
+SubsLen == {s \in SubKinds : Chars(Shape(s)) \cap {"s", "d", "r"} # {}}
+SweptItems ==
+  {P("pn", v, 5, 6) : v \in BndAlloc} \cup {P("pn", 2, v, 6) : v \in Bnd} \cup {P("pn", 2, 5, v) : v \in Bnd}
+  \cup {P("pd", v, 5, 6) : v \in BndNat} \cup {P("pd", 2, v, 6) : v \in Bnd} \cup {P("pd", 2, 5, v) : v \in Bnd}
+  \cup {Po(v) : v \in Bnd} \cup {Ts(v) : v \in Bnd}
+  \cup {P("in", v, 5, 6) : v \in BndAlloc} \cup {P("in", 2, v, 6) : v \in Bnd} \cup {P("in", 2, 5, v) : v \in Bnd}
+  \cup {P("id", v, 5, 6) : v \in Bnd} \cup {P("id", 2, v, 6) : v \in Bnd} \cup {P("id", 2, 5, v) : v \in Bnd}
+  \cup {ON(s, v, 2, IF s = "cc" THEN 1 ELSE 3) : s \in SubKinds \ {"x_unknown", "x_antibot"}, v \in Bnd}
+  \cup {ON(s, 2, 2, v) : s \in SubsB, v \in Bnd}
+  \cup {ON("cc", 2, 2, v) : v \in {0, 1, 16}}
+  \cup {ON(s, 2, v, IF s = "cc" THEN 1 ELSE 3) : s \in SubsLen, v \in BndLen}
+NewFor(it) ==
+  IF it.k \in {"pd", "po"} /\ it.c >= 0 /\ it.c <= 4095 THEN <<P("pn", it.c, MaxInt, MinInt)>>
+  ELSE IF it.k = "id" /\ it.c >= 0 /\ it.c <= 4095 THEN <<P("in", it.c, MaxInt, MinInt)>>
+  ELSE <<>>
+TickContexts == {<<>>, <<Ts(MaxInt - 1)>>, <<Ts(MaxInt - 2)>>, <<Pn(1), Ts(MaxInt - 2)>>}
+\* pass-through records do not touch the tick: two contexts are enough for them
+ContextsOf(it) == IF it.k = "o" THEN {<<>>, <<Pn(1), Ts(MaxInt - 2)>>} ELSE TickContexts
+SweepStreams ==
+  UNION {{ctx \o NewFor(it) \o <<it, O("join", 0, 0, 0), Fin>> : ctx \in ContextsOf(it)} : it \in SweptItems}
+
 R == r
-Init == items = <<>> /\ r = Read(S)
+Init == \/ items = <<>> /\ r = Read(S) /\ sweep = FALSE
+        \/ Sweep /\ items \in SweepStreams /\ r = Read(S) /\ sweep = TRUE
 Next ==
+  /\ ~sweep /\ sweep' = FALSE
   /\ Len(items) < MaxLen
   /\ R.end = "err:unexpected_end" /\ R.st.idx > Len(items)     \* everything was readable
   /\ \E it \in Alpha : LET ni == Append(items, it) IN items' = ni /\ r' = Read(Str(ni))
-Spec == Init /\ [][Next]_<<items, r>>
+Spec == Init /\ [][Next]_<<items, r, sweep>>
 Acc == PAccept(S, R.ev, R.end, R.end)
 
 \* the reader as shaped satisfies the property-level acceptor on every stream
@@ -48,7 +88,7 @@ TicksAsDocumented == Acc.why # "ticks:not-as-documented"
 
 \* the acceptor's running sums (history variables) equal the direct sums over the stream
 RunningIsDirect ==
-  (R.end = "err:unexpected_end" /\ R.st.idx > Len(items) /\ Acc.ok) =>
+  (~sweep /\ R.end = "err:unexpected_end" /\ R.st.idx > Len(items) /\ Acc.ok) =>
      \A c \in -1..3 :
         /\ (IF c \in DOMAIN Acc.pl THEN Acc.pl[c] ELSE <<>>) = PosAt(items, Len(items) + 1, c)
         /\ (IF c \in DOMAIN Acc.inp THEN Acc.inp[c] ELSE <<>>) = InputAt(items, Len(items) + 1, c)
